@@ -110,7 +110,7 @@ func (h *c18Handle) run(c c18HCall) c18HResult {
 		case "part":
 			if len(zero) == 1 {
 				if sl, e := r.Slide(zero[0]); e == nil {
-					s = fmt.Sprintf("idx=%d title=%q\n%s\n%s", sl.Index, sl.Title, sl.GetText(), sl.GetMarkdown())
+					s = fmt.Sprintf("idx=%d title=%q notes=%q\n%s\n%s", sl.Index, sl.Title, sl.Notes, sl.GetText(), sl.GetMarkdown())
 				} else {
 					s = "out of range"
 				}
@@ -157,7 +157,12 @@ func (h *c18Handle) run(c c18HCall) c18HResult {
 		res.Err = err.Error()
 		return res
 	}
-	res.Raw, res.Toks = s, c18Toks(c18TokRe, s)
+	res.Raw = s
+	for _, t := range c18Toks(c18TokRe, s) {
+		if !c18IsNote(t) { // attachments are compared through Raw (purity) and in the replay views
+			res.Toks = append(res.Toks, t)
+		}
+	}
 	if c.Op == "part" { // GetText and GetMarkdown both carry the token
 		seen := map[int]bool{}
 		u := []int{}
